@@ -288,7 +288,12 @@ Definition step_top (s : state) (f : frame) (rest : list frame) (arg : nat) : re
   | FDepRead c sl =>
       Some (upd_node s c (add_val (getN s c) [(sl, slot_ver s sl)]), rest, [])
   | FTimerReg c n =>
-      Some (with_nodes s (fst (g_handle_rel (s_nodes s) n HTimer)), FTimerAdd c n :: rest, [])
+      (* a second handleRelease on a node panics (graph.go:194-196) or runs another callback: not a behaviour
+         of InvalidateAfter, whose resource is fresh *)
+      match n_hrel (getN s n) with
+      | Some _ => None
+      | None => Some (with_nodes s (fst (g_handle_rel (s_nodes s) n HTimer)), FTimerAdd c n :: rest, [])
+      end
   | FTimerAdd c n =>
       match do_add_out s n c with Some (s1, sp) => Some (s1, rest, sp) | None => None end
   | FChildBegin r key body parent =>
